@@ -70,11 +70,13 @@ ROWSPAN = TABLE_NS + "number-rows-spanned"
 # thousands of histories; further occurrences are only counted in NativeResult.outcome)
 MAXFAIL = int(os.environ.get("B_TABLES_MAXFAIL", "5"))
 _REPORTED: dict = {}
+_CURRENT = [None]       # target of the contract being evaluated (the cap is per contract and label)
 
 
 def _report(res, label, detail):
-    n = _REPORTED.get(label, 0)
-    _REPORTED[label] = n + 1
+    key = (_CURRENT[0], label)
+    n = _REPORTED.get(key, 0)
+    _REPORTED[key] = n + 1
     if n < MAXFAIL:
         res.failures.append((label, detail))
     else:
@@ -832,11 +834,16 @@ def _play(init, ops, reads, check=True):
     for i, sym in enumerate(ops):
         op = resolve(sym, g)
         done.append(op)
-        if reads:
-            cache_reads(t)
-        cls = input_class(t, op)
         name = op[0]
         kinds = ("fresh", "xml") if name == "live_row_repeated" else ("grid", "fresh", "xml")
+        cls = input_class(t, op)
+        if reads:
+            try:
+                cache_reads(t)
+            except Exception as e:  # noqa
+                return t, g, done, (i, name, cls + ("" if cls.endswith("-cached") else "-cached"),
+                                    {"fresh": f"a read before the call raised {type(e).__name__}: {e}"}, kinds)
+            cls = input_class(t, op)
         h_before = g.H
         try:
             apply_real(t, op)
@@ -861,8 +868,14 @@ def run_history(init, ops, reads):
     if init not in _INIT_OK:        # the domain check reads (and caches): done once, on an instance of its own
         _INIT_OK[init] = check_state(*build_init(init))
     if _INIT_OK[init]:
-        res.in_domain = False
-        res.outcome = f"initial table {init} is outside the domain: {_INIT_OK[init]}"
+        # the initial table itself does not read like its own definition: reported once, on the empty history
+        res.outcome = f"initial table {init} fails its own check: {_INIT_OK[init]}"
+        if ops:
+            res.in_domain = False
+        else:
+            res.checked = 3
+            for kind, detail in _INIT_OK[init].items():
+                _report(res, f"ensures:{kind}-initial", f"{init}: {detail}")
         return res, None, None, False
     t, g, done, fail = _play(init, ops, reads)
     if fail is not None and not reads:
@@ -899,7 +912,8 @@ def full_alphabet(coords=(0, 1, 2, LAST, E, BEY)):
             ops.append(("delete_cell", x, y))
             for k in (1, 2, 3):
                 ops.append(("set_cell", x, y, v + k, k))
-                ops.append(("insert_cell", x, y, v + 10 + k, k))
+                if k < 3:
+                    ops.append(("insert_cell", x, y, v + 10 + k, k))
     for y in coords:
         ops.append(("delete_row", y))
         for k in (1, 2, 3):
@@ -912,7 +926,8 @@ def full_alphabet(coords=(0, 1, 2, LAST, E, BEY)):
             ops.append(("rdelete_cell", y, x))
             for k in (1, 2, 3):
                 ops.append(("rset_cell", y, x, v + 60 + k, k))
-                ops.append(("rinsert_cell", y, x, v + 70 + k, k))
+                if k < 3:
+                    ops.append(("rinsert_cell", y, x, v + 70 + k, k))
         for rc in ("R1", "R3"):
             for st in (0, 1, E, BEY):
                 ops.append(("rset_values", y, rc, st))
@@ -956,9 +971,10 @@ def _gen_h1(con, sigcase, count, seed):
     if thorough:
         inits += [f"rnd-{seed * 1000 + i}" for i in range(30)]
     alpha = full_alphabet()
+    small = full_alphabet((0, 1, LAST, BEY))
     for init in inits:
         yield {"init": init, "history": (), "reads": False}
-        for op in alpha:
+        for op in (small if init == "ods-Example1" and not thorough else alpha):
             yield {"init": init, "history": (op,), "reads": False}
 
 
@@ -988,14 +1004,34 @@ def _gen_h2(con, sigcase, count, seed):
             yield {"init": init, "history": h, "reads": reads}
 
 
+def _guarded(call):
+    """an exception escaping the harness is a failure of the `no-crash` clause, never a crash of the run"""
+    def wrapped(con, fn, argvals, labels):
+        _CURRENT[0] = con.target
+        try:
+            return call(con, fn, argvals, labels)
+        except Exception as e:  # noqa
+            import traceback
+            res = NativeResult()
+            res.checked = 1
+            tb = traceback.extract_tb(e.__traceback__)[-1]
+            _report(res, "ensures:no-crash", f"{argvals!r}: {type(e).__name__}: {e} at {tb.filename.rsplit('/', 1)[-1]}:"
+                    f"{tb.lineno} {tb.name}")
+            res.outcome = "crashed"
+            return res
+    return wrapped
+
+
+@_guarded
 def _call_history(con, fn, argvals, labels):
     res, _t, _g, _ok = run_history(argvals["init"], argvals["history"], argvals["reads"])
     return res
 
 
 def _history_clauses():
-    out = []
     props = {"grid": {"C01"}, "fresh": {"C02"}, "xml": {"C07"}}
+    out = [Clause(f"{kind}-initial", props[kind], lambda a, r, p: True) for kind in props]
+    out.append(Clause("no-crash", {"C01", "C02", "C07"}, lambda a, r, p: True))
     for n in OPS:
         for cl in CLASSES[n]:
             for cached in ("", "-cached"):
@@ -1020,7 +1056,7 @@ contract(
     gen=_gen_h1, call_native=_call_history,
     bounded=dict(
         scope="every single operation of the full " + _ALPHA_TXT + " x coordinates {0,1,2,last,edge,edge+2} on each "
-              "axis x repeat counts 1..3 x row contents {no cell, 1 cell, runs (2,1)} on 10 initial tables: empty, "
+              "axis ({0,1,last,edge+2} on the 7x4 sheet in quick) x repeat counts 1..3 (1..2 for inserted cells) x row contents {no cell, 1 cell, runs (2,1)} on 10 initial tables: empty, "
               "Table(2,2), Table(3,1), 5 raw-XML tables with row runs x cell runs x column runs of repeats 1..3 (one "
               "ragged), simple_table.ods Example1 (7x4) and Example3 re-parsed from their serialisation; thorough: plus "
               "30 random raw-XML tables (<= 3 row runs x <= 3 cell runs, repeats 1..3); after the step every read "
@@ -1062,10 +1098,11 @@ def _gen_table_names(con, sigcase, count, seed):
     for k in range(0, n + 1):
         for tup in itertools.product(TABLE_NAME_ALPHABET, repeat=k):
             yield {"name": "".join(tup)}
-    for s in ["Sheet 1", "l'été", "a'b", "'a'", "a\tb", " x ", "Feuille1", "a.b", "a$b", "a\rb"[:1] + "b"]:
+    for s in ["Sheet 1", "l'été", "a'b", "'a'", "a\tb", " x ", "Feuille1", "a.b", "a$b", "x y"]:
         yield {"name": s}
 
 
+@_guarded
 def _call_table_name(con, fn, argvals, labels):
     from odfdo import Table
     from odfdo.table import _table_name_check
@@ -1100,7 +1137,8 @@ contract(
     "odfdo.table:_table_name_check",
     sig=dict(name=Str),
     ensures=[Clause("table-name-accepted-iff-valid", {"C07"}, lambda a, r, p: True),
-             Clause("table-name-stored", {"C07"}, lambda a, r, p: True)],
+             Clause("table-name-stored", {"C07"}, lambda a, r, p: True),
+             Clause("no-crash", {"C07"}, lambda a, r, p: True)],
     gen=_gen_table_names, call_native=_call_table_name,
     bounded=dict(scope="all strings of length <= 3 (quick) / <= 4 (thorough) over the 11-letter alphabet "
                        "[ ] * ? : / \\ ' space LF a, plus 10 hand-picked names; both _table_name_check(s) and Table(s)",
@@ -1130,6 +1168,7 @@ def _gen_range_names(con, sigcase, count, seed):
         yield {"name": s}
 
 
+@_guarded
 def _call_range_name(con, fn, argvals, labels):
     from odfdo.table import NamedRange
     res = NativeResult()
@@ -1167,7 +1206,8 @@ contract(
     "odfdo.table:NamedRange.name",
     sig=dict(name=Str),
     ensures=[Clause("range-name-accepted-iff-valid", {"C07"}, lambda a, r, p: True),
-             Clause("range-name-stored", {"C07"}, lambda a, r, p: True)],
+             Clause("range-name-stored", {"C07"}, lambda a, r, p: True),
+             Clause("no-crash", {"C07"}, lambda a, r, p: True)],
     gen=_gen_range_names, call_native=_call_range_name,
     bounded=dict(scope="all strings of length <= 4 (quick) / <= 5 (thorough) over the 9-letter alphabet "
                        "A b 1 0 _ space . $ -, plus 12 hand-picked names; NamedRange(name, ...) and the name setter",
@@ -1512,6 +1552,7 @@ def _gen_getters(con, sigcase, count, seed):
             yield {"init": init, "history": h, "getter": "outside:" + gt}
 
 
+@_guarded
 def _call_getters(con, fn, argvals, labels):
     res = NativeResult()
     gt = argvals["getter"]
@@ -1527,7 +1568,8 @@ contract(
     sig=dict(init=Str, history=Opaque(tuple), getter=Str),
     ensures=[Clause(f"{c}-{gt}", {"C08"}, lambda a, r, p: True)
              for gt in GETTERS for c in ("coords", "content", "norepeat", "detached")]
-            + [Clause(f"outside-{gt}", {"C08"}, lambda a, r, p: True) for gt in OUTSIDE],
+            + [Clause(f"outside-{gt}", {"C08"}, lambda a, r, p: True) for gt in OUTSIDE]
+            + [Clause("no-crash", {"C08"}, lambda a, r, p: True)],
     gen=_gen_getters, call_native=_call_getters,
     bounded=dict(
         scope="25 getter forms {get_cell (keep_repeated True/False), get_row, get_cells (all, flat, areas), cells, "
@@ -1574,6 +1616,13 @@ def _snapshot(obj):
     return snap
 
 
+def _safe_snapshot(obj):
+    try:
+        return _snapshot(obj)
+    except Exception as e:  # noqa
+        return {"xml": f"reading it raised {type(e).__name__}: {e}"}
+
+
 def _snapdiff(a, b):
     for k in a:
         if a[k] != b.get(k):
@@ -1605,7 +1654,7 @@ def _col_edits():
 def _pair_check(res, what, where, make_pair, edits):
     """make_pair() -> (original, clone) fresh each time; equal at birth; each edit on either leaves the other as it was"""
     orig, cl = make_pair()
-    d = _snapdiff(_snapshot(orig), _snapshot(cl))
+    d = _snapdiff(_safe_snapshot(orig), _safe_snapshot(cl))
     res.checked += 2
     if d:
         _report(res, f"ensures:equal-{what}", f"{where}: clone differs at birth: {d}")
@@ -1614,19 +1663,20 @@ def _pair_check(res, what, where, make_pair, edits):
         for side in ("clone", "original"):
             orig, cl = make_pair()
             still, moved = (orig, cl) if side == "clone" else (cl, orig)
-            before = _snapshot(still)
+            before = _safe_snapshot(still)
             try:
                 edit(moved)
             except Exception as e:  # noqa
                 res.outcome = (res.outcome or "") + f" [{ename} on the {side} raised {type(e).__name__}]"
                 continue
-            d = _snapdiff(before, _snapshot(still))
+            d = _snapdiff(before, _safe_snapshot(still))
             if d:
                 other = "original" if side == "clone" else "clone"
                 _report(res, f"ensures:indep-{what}", f"{where}: {ename} on the {side} changed the {other}: {d}")
                 return
 
 
+@_guarded
 def _call_clone(con, fn, argvals, labels):
     res = NativeResult()
     init, history, what = argvals["init"], argvals["history"], argvals["what"]
@@ -1719,7 +1769,8 @@ contract(
     "odfdo.table:Table[clone]",
     sig=dict(init=Str, history=Opaque(tuple), what=Str),
     ensures=[Clause(f"{c}-{w}", {"C10"}, lambda a, r, p: True)
-             for w in ("Table.clone", "Row.clone", "Cell.clone", "Column.clone") for c in ("equal", "indep")],
+             for w in ("Table.clone", "Row.clone", "Cell.clone", "Column.clone") for c in ("equal", "indep")]
+            + [Clause("no-crash", {"C10"}, lambda a, r, p: True)],
     gen=_gen_clone, call_native=_call_clone,
     bounded=dict(
         scope="clones of the table, of every row (the live row and a get_row copy), of every cell (one beyond each row "
@@ -1989,6 +2040,7 @@ def _areas(n):
     return [(x, y, z, tt) for x in range(n) for y in range(n) for z in range(x, n) for tt in range(y, n)]
 
 
+@_guarded
 def _call_transform(con, fn, argvals, labels):
     res = NativeResult()
     init, prefix, law = argvals["init"], argvals["prefix"], argvals["law"]
@@ -2052,6 +2104,7 @@ for _c in ("span-covers-area", "span-keeps-values", "span-del-restores", "span-r
     _T_CLAUSES.append(Clause(_c, {"C17"}, lambda a, r, p: True))
 for _c in ("coherent-after-set_span", "coherent-after-del_span"):
     _T_CLAUSES.append(Clause(_c, {"C17", "C02", "C07"}, lambda a, r, p: True))
+_T_CLAUSES.append(Clause("no-crash", {"C17"}, lambda a, r, p: True))
 
 contract(
     "odfdo.table:Table[transform]",
@@ -2072,3 +2125,255 @@ contract(
         reason="transpose is bounded in DESIGN C17 (zip_longest over expanded rows); the strip / span laws are "
                "stated here over whole tables as the bounded stand-in of the view-level lemmas"),
 )
+
+
+# ===================================================================== genuine defects of the pinned tree
+# One entry per root cause.  `clause` is the primary failing label, `clauses` lists (fnmatch patterns) every label
+# of this module that the defect accounts for on the unchanged tree, `history` the smallest failing history found,
+# `witness` a stand-alone script setting REPRODUCED, `fix` whether a 1-5 line repair exists and where.
+FINDINGS = [
+    dict(
+        property="C01", properties=["C01", "C02", "C07"],
+        target="odfdo.element_cached:set_item_in_vault",
+        calls=["odfdo.table:Table.set_row", "odfdo.table:Table.set_cell", "odfdo.row:Row.set_cell"],
+        clause="ensures:grid-set_row-overlap",
+        clauses=["ensures:*-set_row-overlap*", "ensures:*-set_cell-overlap*", "ensures:*-rset_cell-overlap*"],
+        history="Table('t', width=1, height=2); set_row(0, Row(1, repeated=2))  |  "
+                "row [2, 3x2]; Row.set_cell(0, Cell(9, repeated=2))",
+        what_fails="setting an item that carries a repeat count k >= 2 reaching beyond the run it starts in: "
+                   "Table(1,2).set_row(0, Row x2) leaves three XML rows while the table reports height 2 (live != fresh "
+                   "parse, height != sum of repeats); row [2, 3, 3].set_cell(0, Cell(9) x2) gives [9, 9] instead of "
+                   "[9, 9, 3]: the overlap branch deletes a following item when exactly one of its repetitions should "
+                   "survive (`is_repeated > 1`), addresses the following item by raw child index + 1 through an XPath "
+                   "that expects the odf index (wrong in a table, whose first children are columns), and patches the "
+                   "map by erasing one whole entry per overlapped position",
+        fix="no safe 1-5 line fix: three slips in element_cached.py:135-168 (`> 1` -> `>= 1` repairs the row case "
+            "only); a repair walks the following items by odf index and rebuilds the map with make_cache_map (~8 lines)",
+        witness="""from odfdo import Cell, Element, Row, Table
+t = Table("t", width=1, height=2)
+t.set_row(0, Row(1, repeated=2))
+fresh = Element.from_tag(t.serialize())
+r = Row()
+r.append_cell(Cell(2))
+r.append_cell(Cell(3, repeated=2))
+r.set_cell(0, Cell(9, repeated=2))
+REPRODUCED = (t.height, fresh.height) == (2, 3) and r.get_values() == [9, 9]
+DETAIL = repr((t.height, fresh.height, r.get_values()))   # expected (2, 2, [9, 9, 3])
+"""),
+    dict(
+        property="C01", properties=["C01", "C02", "C07"],
+        target="odfdo.table:Table.append_cell",
+        clause="ensures:grid-append_cell-rowrun",
+        clauses=["ensures:*-append_cell-rowrun*"],
+        history="Table('t'); append_row(Row(1, repeated=2)); append_cell(0, Cell(5))",
+        what_fails="Table.append_cell(y) on a row stored inside a repeated run changes every repetition: the row copy "
+                   "keeps number-rows-repeated and set_row(y, copy) writes the whole run again (when y is not the first "
+                   "row of the run this is the overlap case above and the height goes wrong too); "
+                   "[[None], [None]] -> [[None, 5], [None, 5]] instead of [[None, 5], [None, None]]",
+        fix="1 line in table.py append_cell: `row.repeated = None` after `row = self._get_row2(y)` (as insert_cell does)",
+        witness="""from odfdo import Cell, Row, Table
+t = Table("t")
+t.append_row(Row(1, repeated=2))
+t.append_cell(0, Cell(5))
+REPRODUCED = t.get_values() == [[None, 5], [None, 5]]
+DETAIL = repr(t.get_values())   # expected [[None, 5], [None, None]]
+"""),
+    dict(
+        property="C01", properties=["C01"],
+        target="odfdo.table:Table.delete_cell",
+        clause="ensures:grid-delete_cell-rowrun",
+        clauses=["ensures:*-delete_cell-rowrun*"],
+        history="table of one row run [1, 2] x2; delete_cell((0, 0))",
+        what_fails="Table.delete_cell((x, y)) on a row stored inside a repeated run deletes the cell in every "
+                   "repetition: it edits the live run node in place; [[1, 2], [1, 2]] -> [[2, None], [2, None]] instead "
+                   "of [[2, None], [1, 2]]",
+        fix="3-4 lines in table.py delete_cell: when `row.repeated` take `row = row.clone; row.repeated = None; "
+            "row.delete_cell(x); self.set_row(y, row, clone=False)` (the pattern of set_cell)",
+        witness="""from odfdo import Row, Table
+t = Table("t")
+r = Row()
+r.set_values([1, 2])
+r.repeated = 2
+t.append_row(r)
+before = t.get_values()
+t.delete_cell((0, 0))
+REPRODUCED = before == [[1, 2], [1, 2]] and t.get_values() == [[2, None], [2, None]]
+DETAIL = repr(t.get_values())   # expected [[2, None], [1, 2]]
+"""),
+    dict(
+        property="C01", properties=["C01"],
+        target="odfdo.table:Table.delete_column",
+        clause="ensures:grid-delete_column-ragged",
+        clauses=["ensures:grid-delete_column-ragged", "ensures:fresh-delete_column-ragged"],
+        history="Table('t'); set_values([[1, 2, 3], [7]]); delete_column(0)",
+        what_fails="delete_column(x) does not shift the rows that are at least two cells narrower than the table although "
+                   "they have a cell at x (`row.width >= width` tests against the new table width instead of x): "
+                   "[[1, 2, 3], [7, None, None]] -> [[2, 3], [7, None]] instead of [[2, 3], [None, None]]",
+        fix="1 line in table.py delete_column: `if row.width >= width:` -> `if row.width > x:`",
+        witness="""from odfdo import Table
+t = Table("t")
+t.set_values([[1, 2, 3], [7]])
+t.delete_column(0)
+REPRODUCED = t.get_values() == [[2, 3], [7, None]]
+DETAIL = repr(t.get_values())   # expected [[2, 3], [None, None]]
+"""),
+    dict(
+        property="C02", properties=["C02", "C01"],
+        target="odfdo.table:Table.insert_column",
+        calls=["odfdo.table:Table.insert_column", "odfdo.table:Table.delete_column"],
+        clause="ensures:fresh-insert_column-cached",
+        clauses=["ensures:grid-insert_column*-cached", "ensures:fresh-insert_column*-cached",
+                 "ensures:grid-delete_column*-cached", "ensures:fresh-delete_column*-cached"],
+        history="Table('t'); set_values([[1, 2]]); get_value((0, 0)); insert_column(0)   (same with delete_column(0))",
+        what_fails="insert_column / delete_column edit the rows through new wrappers (`_get_rows()`) and leave the row "
+                   "wrappers cached in `_indexes['_tmap']` with their old cell maps and cached cells: after any read "
+                   "that cached a row, live get_value((0, 0)) still answers 1 where a fresh parse of the table answers "
+                   "None (with delete_column: 1 instead of 2; on some tables the next read raises 'Not a cell: None')",
+        fix="1 line in each of table.py insert_column / delete_column: `self._indexes[\"_tmap\"] = {}` after the row loop",
+        witness="""from odfdo import Element, Table
+t = Table("t")
+t.set_values([[1, 2]])
+t.get_value((0, 0))
+t.insert_column(0)
+live = t.get_value((0, 0))
+fresh = Element.from_tag(t.serialize()).get_value((0, 0))
+t2 = Table("t")
+t2.set_values([[1, 2]])
+t2.get_value((0, 0))
+t2.delete_column(0)
+live2 = t2.get_value((0, 0))
+fresh2 = Element.from_tag(t2.serialize()).get_value((0, 0))
+REPRODUCED = (live, fresh, live2, fresh2) == (1, None, 1, 2)
+DETAIL = repr((live, fresh, live2, fresh2))   # expected live == fresh: (None, None, 2, 2)
+"""),
+    dict(
+        property="C02", properties=["C02", "C07"],
+        target="odfdo.row:Row.repeated",
+        clause="ensures:fresh-live_row_repeated",
+        clauses=["ensures:fresh-live_row_repeated*", "ensures:xml-live_row_repeated*"],
+        history="Table('t', width=1, height=2); get_row(0, clone=False).repeated = 3",
+        what_fails="setting `repeated` on a live row (clone=False) recomputes the maps of a temporary Table wrapper "
+                   "built by `Element.parent`, not of the table object the caller holds: the table keeps height 2 while "
+                   "its XML (and a fresh parse) has 4 rows; height reported != sum of the row repeats",
+        fix="no 1-5 line fix inside the setter: the row has no reference to the Table object that owns the maps "
+            "(needs a back reference, or the Table API must offer the operation)",
+        witness="""from odfdo import Element, Table
+t = Table("t", width=1, height=2)
+t.get_row(0, clone=False).repeated = 3
+fresh = Element.from_tag(t.serialize())
+REPRODUCED = (t.height, fresh.height) == (2, 4)
+DETAIL = repr((t.height, fresh.height))   # expected equal
+"""),
+    dict(
+        property="C08", properties=["C08"],
+        target="odfdo.table:Table.traverse",
+        calls=["odfdo.table:Table.traverse", "odfdo.table:Table.rows", "odfdo.table:Table.get_rows"],
+        clause="ensures:detached-traverse",
+        clauses=["ensures:detached-traverse", "ensures:detached-traverse-range", "ensures:detached-rows",
+                 "ensures:detached-get_rows", "ensures:detached-get_rows-range"],
+        history="Table('t', width=1, height=1); r = t.rows[0]; r.set_value(0, 5)",
+        what_fails="Table.traverse (hence rows, get_rows) documents 'Copies are returned' but `_yield_odf_rows` yields the "
+                   "live row wrapper for every row that is not repeated: writing into the returned row changes the table",
+        fix="1 line in table.py _yield_odf_rows: `yield row.clone` for the unrepeated row (internal callers that rely on "
+            "the live row, e.g. set_column_cells, already push the row back with set_row)",
+        witness="""from odfdo import Table
+t = Table("t", width=1, height=1)
+before = t.serialize()
+r = t.rows[0]
+r.set_value(0, 5)
+REPRODUCED = t.get_value((0, 0)) == 5 and t.serialize() != before
+DETAIL = repr(t.get_values())   # expected [[None]]
+"""),
+    dict(
+        property="C08", properties=["C08"],
+        target="odfdo.table:Table.traverse_columns",
+        calls=["odfdo.table:Table.traverse_columns", "odfdo.table:Table.get_columns"],
+        clause="ensures:norepeat-traverse_columns-range",
+        clauses=["ensures:norepeat-traverse_columns-range", "ensures:norepeat-get_columns-range"],
+        history="Table('t', width=3, height=1); traverse_columns(start=2, end=2)",
+        what_fails="traverse_columns(start, end) starting on the last position of a repeated column run returns a column "
+                   "that still carries number-columns-repeated (3): `x += 1` is executed before the test "
+                   "`x == start and start > 0` (Row.traverse has the right order)",
+        fix="2 lines in table.py traverse_columns (second branch): move `x += 1` after the `if ... column.repeated = None`",
+        witness="""from odfdo import Table
+t = Table("t", width=3, height=1)
+cols = list(t.traverse_columns(start=2, end=2))
+REPRODUCED = [(c.x, c.repeated) for c in cols] == [(2, 3)]
+DETAIL = repr([(c.x, c.repeated) for c in cols])   # expected [(2, None)]
+"""),
+    dict(
+        property="C17", properties=["C17"],
+        target="odfdo.table:Table.transpose",
+        clause="ensures:transpose-twice-ragged",
+        clauses=["ensures:transpose-once-ragged", "ensures:transpose-twice-ragged", "ensures:transpose-once-narrow",
+                 "ensures:transpose-twice-narrow"],
+        history="Table('t'); set_values([[1, 2], [3]]); transpose()   |   Table('t', 1, 1); append_column(); "
+                "transpose(); transpose()",
+        what_fails="transpose() takes the matrix from the physical cells of each row, not from the table width: with rows "
+                   "of different widths zip_longest pads with None and extend_cells(None) raises AttributeError; with "
+                   "rows all narrower than the declared columns the trailing empty columns are lost (size (2, 1) comes "
+                   "back as (1, 1) after two transpositions)",
+        fix="2-3 lines in table.py transpose: pad each `list(row.traverse())` with `Cell()` up to `self.width` before "
+            "zip_longest (repairs both forms)",
+        witness="""from odfdo import Table
+t = Table("t")
+t.set_values([[1, 2], [3]])
+try:
+    t.transpose()
+    raised = None
+except AttributeError as e:
+    raised = e
+t2 = Table("t", width=1, height=1)
+t2.append_column()
+size0 = t2.size
+t2.transpose()
+t2.transpose()
+REPRODUCED = raised is not None and (size0, t2.size) == ((2, 1), (1, 1))
+DETAIL = repr((raised, size0, t2.size))
+"""),
+    dict(
+        property="C17", properties=["C17"],
+        target="odfdo.table:Table.optimize_width",
+        clause="ensures:optimize_width-keeps-values",
+        clauses=["ensures:optimize_width-keeps-values", "ensures:optimize_width-only-empty"],
+        history="Table('t'); append_row(row [3] repeated 3 times); optimize_width()",
+        what_fails="optimize_width removes non-empty rows: `_optimize_width_trim_rows` drops the repeat count of the last "
+                   "row whether or not it is empty, so a table ending with a repeated data row [[3], [3], [3]] becomes [[3]]",
+        fix="1-2 lines in table.py _optimize_width_trim_rows: `if last_row.is_empty(aggressive=False): "
+            "last_row._set_repeated(None)`",
+        witness="""from odfdo import Row, Table
+t = Table("t")
+r = Row()
+r.set_values([3])
+r.repeated = 3
+t.append_row(r)
+before = t.get_values()
+t.optimize_width()
+REPRODUCED = before == [[3], [3], [3]] and t.get_values() == [[3]]
+DETAIL = repr(t.get_values())   # expected [[3], [3], [3]]
+"""),
+    dict(
+        property="C17", properties=["C17"],
+        target="odfdo.table:Table.optimize_width",
+        clause="ensures:optimize_width-keeps-values-norows",
+        clauses=["ensures:optimize_width-keeps-values-norows"],
+        history="Table('t'); optimize_width()",
+        what_fails="optimize_width() on a table without rows raises ValueError (max() of an empty sequence in "
+                   "_optimize_width_length) instead of leaving the table as it is",
+        fix="1 line in table.py _optimize_width_length: `max((...), default=0)`",
+        witness="""from odfdo import Table
+try:
+    Table("t").optimize_width()
+    REPRODUCED = False
+except ValueError:
+    REPRODUCED = True
+"""),
+]
+
+# Behaviours noticed while writing the oracles that are NOT counted as violations of the stated clauses:
+#  * transpose() erases table:name and every other attribute of table:table (it calls self.clear());
+#  * get_row / get_cell / get_column_cells copies keep the repeat count of the run they were read from (the API
+#    documents keep_repeated for get_cell), so pushing such a copy back with set_row / set_cell rewrites the run;
+#  * append_row(Row()) on an empty table declares one column for a row without cells;
+#  * NamedRange accepts names starting with a digit ("1", "1A"), which the office suites refuse - outside the
+#    rule stated for this module (letters, digits, underscore, not of the form letters+digits).
